@@ -197,7 +197,7 @@ CHECKS["C11"] = dict(
          "store-into-delegate-only / local copy, rejection by the target's trait, notification iff linked (on_trait_change and observe); a "
          "chain through never-materialised default delegates; a delegation cycle must end with a Python exception (a crash of the worker "
          "is a violation).",
-    design_ref="DESIGN.md section 4 C11", technique="symbolic execution with z3 strings for the prefix classification; bounded exploration through the compiled extension for histories",
+    design_ref="DESIGN.md section 4 C11", technique="symbolic execution with z3 strings (prefix classification, the forwarding listener's name arithmetic) and symbolic interpretation of the C name functions (clang AST); bounded exploration through the compiled extension for histories",
     note="Part (b) is exhaustive bounded enumeration (the compiled code runs concretely; the solver contributes choice feasibility only). "
          "Known finding: wildcard prefix styles never notify. getattr_delegate/setattr_delegate are not interpreted symbolically (type-slot "
          "calls and instance-trait cloning would need models beyond the time available): said in DESIGN.md.")
